@@ -224,6 +224,11 @@ func RunOut(sched []EnvStep, o OutOpts) *OutResult {
 				if !strings.Contains(cl.Line, "["+h.Addr+"]") {
 					return true
 				}
+				if !strings.Contains(cl.Line, "closed") {
+					// an attach-time notice that reached the channel late (loaded machine): not the
+					// closing notice
+					return true
+				}
 				if closeSeen {
 					rec.add(TraceEv{"e": "Take", "v": 0})
 					return true
